@@ -14,7 +14,8 @@ REPO = os.environ.get('PMV_REPO', '/repo')
 REPO_SRC = os.path.join(REPO, 'src')
 LEAN_DIR = os.path.join(VERIF, 'lean')
 GEN_DIR = os.path.join(LEAN_DIR, 'PMV', 'Generated')
-EVIDENCE_DIR = os.path.join(VERIF, 'evidence')
+# PMV_EVIDENCE_DIR lets tools/seeded_eval.py keep the evidence of runs against a deliberately broken tree out of evidence/
+EVIDENCE_DIR = os.environ.get('PMV_EVIDENCE_DIR') or os.path.join(VERIF, 'evidence')
 REPLAY_DIR = os.path.join(VERIF, 'replays')
 DRIVER = os.path.join(LEAN_DIR, '.lake', 'build', 'bin', 'pmv-driver')
 PY = '/venv/bin/python' if os.path.exists('/venv/bin/python') else sys.executable
